@@ -7,7 +7,7 @@ head = subprocess.check_output(['git', '-C', '/repo', 'rev-parse', '--short', 'H
 n_in = 0
 for pid in sys.argv[4:]:
     out = f'{mutdir}/{pid}-out'
-    for n in (1, 2, 3, 4):
+    for n in (1, 2, 3, 4, 5):
         if not os.path.exists(f'{out}/m{n}.diff'):
             continue
         sid = f'{pid}-r{rnd}m{n}'
